@@ -22,7 +22,13 @@ def _decl_name(ex, ref, st):
 
 
 def _un_camel(ref):
-    return VFun("util.un_camel[contract C08/U1: pure]", lambda ex, st, args, kw, node: VStr(z3.String(fresh_name("un_camel"))))
+    def call(ex, st, args, kw, node):
+        a = args[0]
+        if isinstance(a, VPy):
+            # un_camel(text): len(text), text[i] -- anything but a str is a TypeError (C17: must not escape)
+            ex.safety(st, "TypeError", PyVal.is_pstr(a.e), node, "un_camel of a value that is not a string")
+        return VStr(z3.String(fresh_name("un_camel")))
+    return VFun("util.un_camel[contract C08/U1: pure, needs a str]", call)
 
 
 def make_fattrs_unit(with_fattrs):
@@ -39,12 +45,16 @@ def make_fattrs_unit(with_fattrs):
                 "kwargs": ("clistdict", {"fattrs": "dict[py]"} if with_fattrs else {}),
                 "util": ("obj", "module:util", {})},
         callees={("module:util", "un_camel"): _un_camel},
+        # '_name' is set by the parser itself (constructors / destructors): a string when present
+        requires=["ast.attrs['_name'] is None or isstr(ast.attrs['_name'])"] +
+                 (["not ('_name' in kwargs['fattrs'])"] if with_fattrs else []),      # internal key, not a YAML attribute
         ensures=[
             # the name used for every generated symbol is the declaration's name AFTER the YAML attributes were merged:
             # fattrs: {name: x} equals the inline attribute +name(x)
             "self.fmtdict.function_name == ast.name",
         ] + (["implies(kwargs['fattrs'].get('name'), self.fmtdict.function_name == kwargs['fattrs']['name'])"] if with_fattrs else []),
-        raises=["TypeError"],
+        # a name attribute without a value (+name -> True) or with a non-string value is rejected with a message
+        raises=["RuntimeError"],
     )
     u.properties = {("Declaration", "name"): _decl_name}
     return u
